@@ -341,3 +341,98 @@ func auditCoseSign(w *World, r *Recorder, rule string) {
 	}
 	r.Check(ok2, rule, "audit: go-cose NewSign1Message", w.FnPos(nm), "from the pinned source: fresh message without payload and signature", "NewSign1Message does not return a fresh message with empty payload and signature")
 }
+
+// auditNilOnError: every return of fn (and of the functions whose results it
+// passes through unchanged, to depth 4) that may carry a non-nil error carries
+// a nil first result. Syntactic, over the dependency's SSA: a return is fine
+// when its error operand is the nil constant, when its first operand is the
+// nil constant, or when both operands are the two results of one call to a
+// function that satisfies the rule itself.
+func auditNilOnError(w *World, fn *ssa.Function, depth int) (bool, string) {
+	if fn == nil || fn.Blocks == nil {
+		return false, "no body"
+	}
+	if depth > 4 {
+		return false, "pass-through chain too deep"
+	}
+	n := fn.Signature.Results().Len()
+	if n < 2 {
+		return false, "not a (value, error) function"
+	}
+	for _, b := range fn.Blocks {
+		ret, ok := b.Instrs[len(b.Instrs)-1].(*ssa.Return)
+		if !ok {
+			continue
+		}
+		v, e := ret.Results[0], ret.Results[n-1]
+		if isNilConst(e) || isNilConst(v) {
+			continue
+		}
+		ev, ok1 := e.(*ssa.Extract)
+		vv, ok2 := v.(*ssa.Extract)
+		if ok1 && ok2 && ev.Tuple == vv.Tuple && vv.Index == 0 {
+			if c, ok := ev.Tuple.(*ssa.Call); ok {
+				var callees []*ssa.Function
+				if f := c.Call.StaticCallee(); f != nil {
+					callees = []*ssa.Function{f}
+				} else if c.Call.IsInvoke() {
+					callees = w.depImplementations(c.Call.Value.Type(), c.Call.Method.Name())
+				}
+				if len(callees) == 0 {
+					return false, "unresolved pass-through callee at " + w.InstrPos(c)
+				}
+				for _, f := range callees {
+					if ok, why := auditNilOnError(w, f, depth+1); !ok {
+						return false, f.String() + ": " + why
+					}
+				}
+				continue
+			}
+		}
+		// error known non-nil here only if the value is nil: anything else is unproven
+		if knownNilAt(e, b) {
+			continue
+		}
+		return false, "return at " + w.InstrPos(ret) + " may carry both a value and an error"
+	}
+	return true, ""
+}
+
+// depImplementations: the methods named m of all types in the program that
+// implement the interface type t (whole-program load).
+func (w *World) depImplementations(t types.Type, m string) []*ssa.Function {
+	it, ok := t.Underlying().(*types.Interface)
+	if !ok {
+		return nil
+	}
+	var out []*ssa.Function
+	for _, T := range w.Prog.RuntimeTypes() {
+		if types.IsInterface(T) || !types.Implements(T, it) {
+			continue
+		}
+		if sel := w.Prog.MethodSets.MethodSet(T).Lookup(nil, m); sel != nil {
+			if f := w.Prog.MethodValue(sel); f != nil && f.Blocks != nil {
+				out = append(out, f)
+			}
+		} else if f := w.Prog.LookupMethod(T, nil, m); f != nil && f.Blocks != nil {
+			out = append(out, f)
+		}
+	}
+	return out
+}
+
+// auditCoseMarshal: the tagged MarshalCBOR of a Sign1Message returns nil bytes
+// whenever it returns an error (so passing both results through is as good as
+// returning nil explicitly on the error path).
+func auditCoseMarshal(w *World, r *Recorder, rule string) {
+	if !w.Whole {
+		return
+	}
+	fn := w.depFunc(cMarshalMsg)
+	if fn == nil {
+		r.Undecide(rule, "go-cose Sign1Message.MarshalCBOR", "-", "dependency function not found in the whole-program load")
+		return
+	}
+	ok, why := auditNilOnError(w, fn, 0)
+	r.Check(ok, rule, "audit: go-cose Sign1Message.MarshalCBOR nil-on-error", w.FnPos(fn), "from the pinned sources: every return that may carry an error carries nil bytes (through the encoder it delegates to)", "the pinned go-cose/cbor may return bytes together with an error: "+why)
+}
